@@ -148,7 +148,7 @@ func runC13(w *W) {
 	n := 6000
 	ops := 12
 	if w.thorough() {
-		n = 150000
+		n = 400000
 		ops = 40
 	}
 	w.editDocs(n, func(g string, doc []byte, k int) {
